@@ -8,6 +8,9 @@ package flavors
 // return-from / go marker an evaluation hands back: nothing more is evaluated
 // and the marker is the function's result.
 //@ every-function flavors forward-exits
+// C05, package-wide (thorough tier): no function makes a number that existed
+// when it was entered the target of a mutating math/big method.
+//@ every-function flavors operands-kept
 
 // C11: flattening the components of a flavor never adds a second combination
 // that comes from a flavor already present in the method's list.
